@@ -29,6 +29,7 @@ type vrtResult struct {
 
 func vrtRunCase(c vrtCase) (res vrtResult) {
 	vrtCur = &vrtRun{model: c.Model, tier: c.Tier, prop: c.Prop, start: time.Now()}
+	vrtIssuer, vrtHostIssuer, vrtMetaSign, vrtQuiet = vrtStaticIssuer, false, false, false
 	defer func() {
 		if r := recover(); r != nil {
 			if s, ok := r.(vrtStop); ok {
